@@ -50,3 +50,6 @@ package threadgroup
 //@   ensures [rejected-nil] old(closed(tg.closed)) ==> result0 == nil
 //@   ensures [rejected-no-context] old(closed(tg.closed)) ==> !called("WithContext")
 //@   ensures [admitted] !old(closed(tg.closed)) ==> result2 == nil && called("WithContext")
+//@ func (*ThreadGroup).Done
+//@   assigns nothing
+//@   ensures result == tg.closed
